@@ -316,6 +316,12 @@ def run(ctx):
     from .c03 import clause_strict_gates_guard
     clause_strict_gates_guard(r, mir)
 
+    # ------------------------------------------------------------------ R01.9 (shared with C09 R09.4)
+    # what the parser reports as consumed decides which bytes are re-fed with the next chunk
+    from .c09 import rule_consumed_count
+    from ..smimpl import index as _index
+    rule_consumed_count(ctx, _index(), rid="R01.9")
+
     ctx.not_decided += ["bytes of captured text surviving decode/encode (stated exception of the property)", "arithmetic of Arena::shift / init_with (memory module unit tests)"]
     return ("Structural conditions of 'lexemes and raw gaps tile every chunk exactly once': construction sites and the five writers of "
             "Lexer.lexeme_start, EOF leaves of all %d automaton states, commit order and flush ordering on every CFG path of the dispatcher / "
